@@ -89,16 +89,18 @@ impl FeelZone {
           if let Some(minutes_match) = captures.name("offMinutes") {
             if let Ok(minutes) = minutes_match.as_str().parse::<i32>() {
               let mut offset = 3600 * hours + 60 * minutes;
+              let mut seconds = 0;
               if let Some(seconds_match) = captures.name("offSeconds") {
-                if let Ok(seconds) = seconds_match.as_str().parse::<i32>() {
+                if let Ok(value) = seconds_match.as_str().parse::<i32>() {
+                  seconds = value;
                   offset += seconds;
                 }
               }
               if sign_match.as_str() == "-" {
                 offset = -offset;
               }
-              if hours > 14 {
-                // the hour magnitude is limited to at most 14
+              if hours > 14 || minutes > 59 || seconds > 59 {
+                // the hour magnitude is limited to at most 14, minutes and seconds to at most 59
                 return None;
               }
               return Some(FeelZone::new(offset));
